@@ -6,6 +6,7 @@ from operator import floordiv
 import numpy as np
 import zfpy
 from .sgzconstants import DISK_BLOCK_BYTES
+from .utils import check_range_length
 
 
 class SgzLoader(object):
@@ -46,7 +47,7 @@ class SgzLoader(object):
 
     def _get_compressed_bytes(self, offset, length_bytes):
         if self.compressed_volume is not None:
-            return self.compressed_volume[offset:offset+length_bytes]
+            return check_range_length(self.compressed_volume[offset:offset+length_bytes], offset, length_bytes)
         else:
             return self.file.read_range(self.file, self.data_start_bytes + offset, length_bytes)
 
